@@ -30,7 +30,7 @@ func init() {
 		Rule: "`wrgl merge main alt` through the in-process CLI: main ahead of alt, behind alt, equal to alt, or diverged with disjoint cell edits and row additions x fast-forward mode (default, --ff, --no-ff, --ff-only) x 1-3 commits on the moving side; the table main ends up with (exported and raw) must be X when the other side is the base, the union of the edits when diverged; a refused merge must leave main alone; non-trivial = every case",
 		Gen: func(seed uint64, tier string) any {
 			r := NewRand(seed)
-			p := C05CLIPlan{Shape: Pick(r, []string{"ahead", "ahead", "behind", "equal", "diverged"}), FF: Pick(r, []string{"", "ff", "no-ff", "no-ff", "ff-only"}), Depth: r.Range(1, 3)}
+			p := C05CLIPlan{Shape: Pick(r, []string{"ahead", "ahead", "behind", "equal", "diverged", "sidemerge"}), FF: Pick(r, []string{"", "ff", "no-ff", "no-ff", "ff-only"}), Depth: r.Range(1, 3)}
 			p.Base = SynthSpec{N: Pick(r, []int{1, 3, 8, 30, 255, 256, 300}), NCols: r.Range(2, 4), Seed: r.Uint64()}
 			cols, pk, _ := p.Base.Build()
 			p.E1, p.E2 = genDisjointEdits(r.Sub("edits"), cols, pk, p.Base.N)
@@ -54,7 +54,7 @@ func execC05CLI(t *testing.T, raw json.RawMessage, res *Result) {
 		return
 	}
 	okFF := map[string]bool{"": true, "ff": true, "no-ff": true, "ff-only": true}
-	okShape := map[string]bool{"ahead": true, "behind": true, "equal": true, "diverged": true}
+	okShape := map[string]bool{"ahead": true, "behind": true, "equal": true, "diverged": true, "sidemerge": true}
 	if !okFF[p.FF] || !okShape[p.Shape] {
 		res.Invalid("shape/ff")
 		return
@@ -121,6 +121,54 @@ func execC05CLI(t *testing.T, raw json.RawMessage, res *Result) {
 			return
 		}
 		want = rowsBoth
+	case "sidemerge":
+		// main: c0 - c1 (cell A := v1) - a1 (cell D) - a2 (cell A back to its old value) - m = merge of side;
+		// side forks from c0 (cell C); alt forks from c1 (cell B). The base of main and alt is c1 - the nearest common
+		// ancestor - although c0 is fewer parent links away from m (through the one-commit side branch). Merging alt
+		// into main must keep main's revert of A: alt never touched A after c1.
+		if p.Fault != nil || len(rows) < 4 || len(cols) < 2 {
+			res.Skip("sidemerge needs 4 rows and a non-key column, fault-free")
+			return
+		}
+		pkI, _ := pkIndices(cols, pk)
+		col := -1
+		for j := range cols {
+			if !contains(pkI, j) {
+				col = j
+			}
+		}
+		if col < 0 {
+			res.Skip("no non-key column")
+			return
+		}
+		ver := func(edits map[int]string) [][]string {
+			out := make([][]string, len(rows))
+			for i := range rows {
+				out[i] = append([]string(nil), rows[i]...)
+				if v, ok := edits[i]; ok {
+					out[i][col] = v
+				}
+			}
+			return out
+		}
+		write := func(name string, rs [][]string) string { return n.WriteFile(name, CSVText(cols, rs, ',')) }
+		fc1 := write("c1.csv", ver(map[int]string{0: "v1"}))
+		fa1 := write("a1.csv", ver(map[int]string{0: "v1", 3: "D"}))
+		fa2 := write("a2.csv", ver(map[int]string{3: "D"}))
+		fs := write("s.csv", ver(map[int]string{2: "C"}))
+		fb1 := write("b1.csv", ver(map[int]string{0: "v1", 1: "B"}))
+		if !must("branch", "create", "side", "main") ||
+			!must("commit", "main", fc1, "c1", "-p", pkArg) ||
+			!must("branch", "delete", "alt") || !must("branch", "create", "alt", "main") ||
+			!must("commit", "alt", fb1, "b1", "-p", pkArg) ||
+			!must("commit", "side", fs, "s", "-p", pkArg) ||
+			!must("commit", "main", fa1, "a1", "-p", pkArg) ||
+			!must("commit", "main", fa2, "a2", "-p", pkArg) ||
+			!must("merge", "main", "side", "-n", "2", "--no-ff") {
+			return
+		}
+		want = ver(map[int]string{1: "B", 2: "C", 3: "D"})
+		res.probe("merge_base_behind_a_merged_side_branch", 1)
 	}
 	refsBefore, _ := n.Refs()
 	args := []string{"merge", "main", "alt", "-n", "2"}
@@ -153,7 +201,7 @@ func execC05CLI(t *testing.T, raw json.RawMessage, res *Result) {
 		res.probe("merge_succeeded_despite_read_error", 1) // then the result must be right (checked below)
 	}
 	if cr.Err != nil {
-		if p.Shape == "diverged" && p.FF == "ff-only" {
+		if (p.Shape == "diverged" || p.Shape == "sidemerge") && p.FF == "ff-only" {
 			if string(refsAfter["heads/main"]) != string(refsBefore["heads/main"]) {
 				res.Violate("refused-merge-moved-branch", "`wrgl %s` was refused (%v) but main moved", strings.Join(args, " "), cr.Err)
 				return
@@ -165,7 +213,7 @@ func execC05CLI(t *testing.T, raw json.RawMessage, res *Result) {
 		res.Violate("merge-error", "`wrgl %s` (%s) failed: %v\n%s", strings.Join(args, " "), p.Shape, cr.Err, cr.Stdout)
 		return
 	}
-	if p.Shape == "diverged" && p.FF == "ff-only" {
+	if (p.Shape == "diverged" || p.Shape == "sidemerge") && p.FF == "ff-only" {
 		res.Violate("ff-only-merged", "`wrgl %s` merged diverged branches: %s", strings.Join(args, " "), cr.Stdout)
 		return
 	}
